@@ -95,7 +95,7 @@ def case_flags(rng, idx):
         f.update(calls=False, reductions=False, derived_dims=False, logical_mask=False)
     if profile == 'py':
         f.update(calls=False, reductions=False, derived_dims=False, where=False, lbounds=False, explicit_one=False,
-                 no_bare_lhs=True, neg_strides=f['hostile'] == 'neg_stride_py')
+                 no_bare_lhs=True, neg_strides=False)
     if f['hostile'] == 'section_call_arg':
         f['calls'] = True
     # strided / ':' sections on arrays with lower bound != 1 break normalize_array_shape_and_access (known): they
